@@ -106,6 +106,14 @@ def run_case(case: dict) -> CaseResult:
         conn = sess.conn
         tr = sess.dsess.transport
         rest = b""
+        for _ in range(int(case.get("pings_in", 0))):
+            # the library's own one-message batches (its answer to the device's ping) are batches like any other:
+            # one write each, decoding to exactly that message -- the first, the second and the third time
+            n0 = tr.n_writes
+            tr.feed(sess.dsess.encode(pb.PingRequest()))
+            marks.append((tr.n_writes - n0, 1))
+            expected.append((8, b""))
+            classes_extra.add("library_internal_batches")
         if case.get("partial_in"):
             # the peer's last chunk ended in the middle of a frame (after `lead` complete ones): what the application
             # sends meanwhile is written at once all the same
@@ -202,7 +210,8 @@ def _case(draw, tier):
     if draw(st.integers(0, 5)) == 2:
         return {"mode": "api", "early": True, "login": draw(st.booleans()), "noise": draw(st.booleans()), "batches": [[b for b in bt if b[0] in names_ok] or [[classes[0].__name__, {}]] for bt in batches]}
     return {"mode": "api", "noise": draw(st.booleans()), "single_api": draw(st.booleans()), "batches": batches, **({"resend": draw(st.integers(1, 3))} if draw(st.integers(0, 3)) == 0 else {}),
-            **({"partial_in": [draw(st.integers(0, 2)), draw(st.integers(1, 12))]} if draw(st.integers(0, 2)) == 0 else {})}
+            **({"partial_in": [draw(st.integers(0, 2)), draw(st.integers(1, 12))]} if draw(st.integers(0, 2)) == 0 else {}),
+            **({"pings_in": draw(st.integers(1, 4))} if draw(st.integers(0, 2)) == 0 else {})}
 
 
 def strategy(tier):
@@ -219,6 +228,8 @@ def enumerated(tier):
             yield {"mode": "api", "early": True, "noise": noise, "batches": [[[n, {}] for n in names[lo:lo + 2]], [[n, {}]] if False else [[n, {}] for n in names[lo + 2:lo + 8]] or [[names[0], {}]]]}
         keyed = [c.__name__ for c in client_classes() if any(f.name == "key" for f in c.DESCRIPTOR.fields)]
         yield {"mode": "api", "noise": noise, "resend": 2, "batches": [[[n, {"key": 5}]] for n in keyed[:6]] + [[[keyed[0], {"key": 1}], [keyed[1], {"key": 2}]]]}
+        for n in (1, 2, 3):
+            yield {"mode": "api", "noise": noise, "pings_in": n, "batches": [[[names[0], {}]], [[names[1], {}], [names[2], {}]]]}
         for lead in (0, 1):
             for k in (1, 2, 3, 5):
                 yield {"mode": "api", "noise": noise, "partial_in": [lead, k], "batches": [[[n, {}]] for n in names[:3]] + [[[n, {}] for n in names[3:6]]]}
